@@ -223,8 +223,10 @@ class C01(CoreCheck):
         # C01 anchors iv_inotify.c, iv_signal.c and iv_wait.c as well: "no callback / access after unregister" for watches,
         # signal interests and wait interests is decided by the machinery of C20, C10 and C11 (handler scripts that
         # unregister self / others / the instance, freed at once, under ASan; their Coq monitors)
-        import c20, c10
-        return [("C20", c20.C20), ("C10", c10.C10), ("C11", c10.C11)]
+        import c20, c10, c08
+        # ... and the cross-thread kick path of iv_event / the epoll batch (an event handler that unregisters and frees a raw
+        # event whose descriptor was reported in the same batch) by the C08 machinery
+        return [("C20", c20.C20), ("C10", c10.C10), ("C11", c10.C11), ("C08", c08.C08)]
 
     def gen_cases(self, ctx, rng, n):
         cases = CoreCheck.gen_cases(self, ctx, rng, n)
